@@ -69,6 +69,7 @@ class Ctx:
         self.notes: List[str] = []
         self.extra: Dict[str, Any] = {}
         self.exhaustive_arms: List[str] = []
+        self.shrink_spent = 0.0
 
     # -- counting ---------------------------------------------------------------------
     def record(self, key: str, nontrivial: bool, classes=(), sample: Any = None):
@@ -110,7 +111,7 @@ class _Found(Exception):
 
 
 def hyp_run(ctx: Ctx, name: str, strategy, fn: Callable[[Any], List[Viol]], max_examples: int,
-            shrink_budget_s: Optional[float] = None, max_rounds: int = 5):
+            shrink_budget_s: Optional[float] = None, max_rounds: int = 4):
     """Drive `fn` over `strategy` with Hypothesis.
 
     `fn(case)` evaluates one generated case, calls ctx.record(...) itself and returns the list of
@@ -124,8 +125,8 @@ def hyp_run(ctx: Ctx, name: str, strategy, fn: Callable[[Any], List[Viol]], max_
     from hypothesis.errors import Flaky
 
     if shrink_budget_s is None:
-        shrink_budget_s = 15.0 if ctx.tier == 'quick' else 90.0
-    ignored: set = set()
+        shrink_budget_s = 8.0 if ctx.tier == 'quick' else 90.0
+    ignored: set = set(ctx.viols.keys())     # buckets already reported by an earlier arm of this shard
     remaining = max_examples
     rnd = 0
     while remaining > 0 and rnd < max_rounds:
@@ -134,6 +135,10 @@ def hyp_run(ctx: Ctx, name: str, strategy, fn: Callable[[Any], List[Viol]], max_
         def body(case):
             state['n'] += 1
             if state['t0'] is not None and time.time() - state['t0'] > shrink_budget_s:
+                return
+            if state['t0'] is None and ctx.shrink_spent > 4 * shrink_budget_s:
+                # shrink budget of this shard is used up: keep collecting buckets, unshrunk
+                ctx.add(fn(case))
                 return
             viols = ctx.add(fn(case))
             new = [v for v in viols if v.bucket not in ignored]
@@ -163,6 +168,7 @@ def hyp_run(ctx: Ctx, name: str, strategy, fn: Callable[[Any], List[Viol]], max_
                 raise
         if state['best'] is None:
             break
+        ctx.shrink_spent += time.time() - state['t0']
         ignored.add(state['best'].bucket)
         ignored.update(ctx.viols.keys())
         remaining -= state['n']
